@@ -323,8 +323,15 @@ def gen_static(rng, big=False):
     cut = 2 * max(sizes) if rng.random() < 0.7 else common.dyadic(rng, 0.5, 1.5, bits=3)
     lo = float(2 * cut) + 0.25
     L = [common.dyadic(rng, lo, lo + 3, bits=2) for _ in range(3)]
-    if rng.random() < 0.3:
+    roll = rng.random()
+    if roll < 0.3:
         L = [L[0]] * 3
+    elif roll < 0.6:
+        # thin slab / small box: one or two edges between the cut-off and twice the cut-off, so that a pair
+        # can be within the cut-off both directly and through the face (the nearest image decides)
+        for k in rng.sample(range(3), rng.choice([1, 1, 2])):
+            steps = int(cut * 16)
+            L[k] = cut + Fraction(rng.randint(1, max(1, steps - 1)), 16)
     return dict(nodes=nodes, atypes=atypes, inter=inter, cut=rs(cut), L=[rs(c) for c in L], n=len(nodes))
 
 
